@@ -55,6 +55,12 @@ def crash(pcalls, demo=False):
              bounds={"calls_of_killed_process": pcalls, "crash_point": "before any of its <=16 system calls, or idle", "segment_preexists": "symbolic"})
 def is_open(fid):
     return any(f["id"] == fid and f.get("status") == "open" for f in load_findings())
+def names(tier):
+    # long names through the real p_shm_new name handling + real SHA-1 key derivation (harness shared with C06)
+    import C06
+    qs = [C06.names(n, kind=1) for n in ([51, 100] if tier == "quick" else C06.NAME_LENS)]
+    for q in qs: q.name = "shm_" + q.name
+    return qs
 def queries(tier):
     if tier == "quick":
         qs = [hist(4), crash(3), crash(1, demo=True)]
@@ -62,6 +68,7 @@ def queries(tier):
         qs = [hist(4), hist(5, timeout=3000), crash(4), crash(1, demo=True)]
     # Q's open before P's k-th system call: 1 shm_open, 2 ftruncate, 3 mmap, 4 close, 5 sem_open.  Positions 3..5 are the
     # known first-open race: while it is open one demonstration query runs, once fixed all positions are ordinary queries
+    qs += names(tier)
     qs += [race(1, False), race(2, False)]
     if is_open("C07_first_open_race"):
         qs += [race(5, True)]
